@@ -236,3 +236,19 @@ def pg_has_path(m, r, a, b, space=None):
             if e[0] == x and e[1] not in seen:
                 seen.add(e[1]); todo.append(e[1])
     return False
+
+
+@model("Graph::contains_edge")
+def pg_contains_edge(m, r, a, b):
+    g = deref(r)
+    a, b = _ix(m, a), _ix(m, b)
+    return any(e[0] == a and e[1] == b for e in g.edges)
+
+
+@model("Graph::find_edge")
+def pg_find_edge(m, r, a, b):
+    g = deref(r)
+    a, b = _ix(m, a), _ix(m, b)
+    for i, e in enumerate(g.edges):
+        if e[0] == a and e[1] == b: return SOME(_eix(i))
+    return NONE()
